@@ -73,6 +73,8 @@ struct Walk {
     empty_match_at_end: bool,
     adjacent_matches: bool,
     n_matches: usize,
+    /// A Replace stage's `find_iter` returned a runtime `Err`: later stages are serialised but not run.
+    errored: bool,
     /// First violation of the regex contract the Lean model assumes (`matchesOk`): matches in
     /// order, non-overlapping, start <= end, on char boundaries of the stage input.
     assumption: Option<String>,
@@ -95,12 +97,21 @@ fn run_collect(chain: &Chain, input: &str, ser: &mut String, w: &mut Walk) -> Re
             ser.push(']');
             Ok(cur)
         }
+        Chain::Replace { pattern, content } if w.errored => {
+            ser.push_str(&format!("r({}/{}/)", cps(pattern), cps(content)));
+            Ok(input.to_string())
+        }
         Chain::Replace { pattern, content } => {
             let re = FancyRegex::new(pattern).map_err(|_| ())?;
             let mut ms = Vec::new();
             let mut last_end = 0usize;
             for m in re.find_iter(input) {
-                let m = m.map_err(|_| ())?;
+                let Ok(m) = m else {
+                    // runtime error of the regex engine (backtrack limit): `normalize` returns Err
+                    w.errored = true;
+                    ser.push_str(&format!("r({}/{}/!)", cps(pattern), cps(content)));
+                    return Ok(input.to_string());
+                };
                 let (s, e) = (m.start(), m.end());
                 if w.assumption.is_none() {
                     let bad = if s > e {
@@ -133,6 +144,7 @@ fn run_collect(chain: &Chain, input: &str, ser: &mut String, w: &mut Walk) -> Re
             Ok(o)
         }
         leaf => {
+            let errored = w.errored;
             ser.push_str(&match leaf {
                 Chain::Bert { lower, strip } => format!("b{}{}", *lower as u8, *strip as u8),
                 Chain::Nfc => "nfc".to_string(),
@@ -140,6 +152,9 @@ fn run_collect(chain: &Chain, input: &str, ser: &mut String, w: &mut Walk) -> Re
                 Chain::Nfkc => "nfkc".to_string(),
                 _ => "nfkd".to_string(),
             });
+            if errored {
+                return Ok(input.to_string());
+            }
             let (o, _) = build(leaf).map_err(|_| ())?.normalize(input).map_err(|_| ())?;
             Ok(o)
         }
@@ -271,6 +286,10 @@ fn one(out: &mut Out, text: &str, chain: &Chain) {
     let (ans, fail) = match &res {
         Err(m) => ("panic".to_string(), Some(format!("panic: {m}"))),
         Ok(Err(_)) => ("err:regex".to_string(), None),
+        Ok(Ok(_)) if w.errored => (
+            "ok-despite-regex-error".to_string(),
+            Some("regex: find_iter failed at run time but normalize returned Ok".to_string()),
+        ),
         Ok(Ok((normalized, offsets))) => (
             format!("ok {};{}", cps(normalized), join(offsets.iter(), ",")),
             oracle(text, normalized, offsets),
@@ -608,6 +627,30 @@ fn run(args: &Args) {
             for b in &leaves {
                 one(&mut out, text, &Chain::Seq(vec![a.clone(), b.clone()]));
             }
+        }
+    }
+
+    // (a2) regex runtime errors: a look-ahead with nested quantifiers exceeds fancy-regex's
+    // backtrack limit on a run of x's; `normalize` must return Err (through `?`), also from
+    // inside (nested) Sequences and after stages that lengthen the text.
+    {
+        let boom = Chain::Replace { pattern: r"(x+x+)+\1y".to_string(), content: "_".to_string() };
+        let nfc = Chain::Nfc;
+        let widen = Chain::Replace { pattern: "a".to_string(), content: "xxxxxxxx".to_string() };
+        let xs = "x".repeat(30);
+        let cases: Vec<(String, Chain)> = vec![
+            (xs.clone(), boom.clone()),
+            (xs.clone(), Chain::Seq(vec![boom.clone()])),
+            (xs.clone(), Chain::Seq(vec![nfc.clone(), boom.clone()])),
+            (xs.clone(), Chain::Seq(vec![boom.clone(), nfc.clone(), Chain::Replace { pattern: "x".to_string(), content: "y".to_string() }])),
+            (xs.clone(), Chain::Seq(vec![Chain::Seq(vec![nfc.clone(), boom.clone()]), Chain::Bert { lower: true, strip: false }])),
+            ("aaaa".to_string(), Chain::Seq(vec![widen.clone(), boom.clone()])),
+            ("aaaa".to_string(), boom.clone()),
+            (format!("é{xs}"), Chain::Seq(vec![Chain::Nfd, boom.clone()])),
+            ("xxxy".to_string(), boom.clone()),
+        ];
+        for (t, c) in &cases {
+            one(&mut out, t, c);
         }
     }
 
